@@ -459,4 +459,105 @@ theorem resolve_fuel_mono_aux (cfg : Cfg) (w : World) : ∀ fuel n st, resolve c
                 intro e; rw [e] at h; exact h rfl
               rw [ih _ _ hne]
 
+/-! ### every wrapper that has a value has a location (the invariant behind 05c5875: InternalizeRefs asks the
+    name resolver only for references with a value) -/
+
+def ValuedPathed (st : St) : Prop := ∀ i ∈ st.value, i ∈ st.pathed
+
+/-- `P s s'`: the invariant is carried from `s` to `s'` -/
+def Carries (s s' : St) : Prop := ValuedPathed s → ValuedPathed s'
+
+theorem unvisit_vp (st : St) (t : Key) (k : Kind) (id : Nat) (h : ValuedPathed st) : ValuedPathed (unvisit st t k id) := by
+  intro i hi
+  simp only [unvisit, List.mem_append, List.mem_singleton] at hi ⊢
+  rcases hi with (hi | hi) | hi
+  · exact Or.inl (Or.inl (h i hi))
+  · exact Or.inl (Or.inr hi)
+  · exact Or.inr hi
+
+theorem unvisitNil_vp (st : St) (t : Key) (id : Nat) (h : ValuedPathed st) : ValuedPathed (unvisitNil st t id) := by
+  intro i hi
+  simp only [unvisitNil, List.mem_append, List.mem_singleton] at hi ⊢
+  exact Or.inl (h i hi)
+
+theorem finish_vp (cfg : Cfg) (n' : Node) (kind : Kind) (id : Nat) (t : Key) (r : Res) (st' : St)
+    (h : (finish cfg n' kind id t r).st? = some st') : ∃ s2, r.st? = some s2 ∧ Carries s2 st' := by
+  cases r with
+  | ok s2 =>
+    refine ⟨s2, rfl, ?_⟩
+    simp only [finish] at h
+    split at h
+    · split at h
+      · simp [Res.st?] at h; subst h; exact unvisit_vp _ _ _ _
+      · simp [Res.st?] at h
+    · simp [Res.st?] at h; subst h; exact unvisitNil_vp _ _ _
+  | errMust k2 s2 =>
+    refine ⟨s2, rfl, ?_⟩
+    simp only [finish] at h
+    split at h <;> (simp [Res.st?] at h; subst h; exact fun x => x)
+  | err => simp [finish, Res.st?] at h
+  | panic s => simp [finish, Res.st?] at h
+  | outOfFuel => simp [finish, Res.st?] at h
+
+theorem finishSingle_vp (cfg : Cfg) (kind : Kind) (id : Nat) (t : Key) (r : Res) (st' : St)
+    (h : (finishSingle cfg kind id t r).st? = some st') : ∃ s2, r.st? = some s2 ∧ Carries s2 st' := by
+  cases r with
+  | ok s2 =>
+    refine ⟨s2, rfl, ?_⟩
+    simp only [finishSingle] at h
+    split at h
+    · simp [Res.st?] at h; subst h; exact unvisit_vp _ _ _ _
+    · simp [Res.st?] at h
+  | errMust k2 s2 =>
+    refine ⟨s2, rfl, ?_⟩
+    simp [finishSingle, Res.st?] at h; subst h; exact fun x => x
+  | err => simp [finishSingle, Res.st?] at h
+  | panic s => simp [finishSingle, Res.st?] at h
+  | outOfFuel => simp [finishSingle, Res.st?] at h
+
+theorem resolve_vp (cfg : Cfg) (w : World) : ∀ fuel n st st', (resolve cfg w fuel n st).st? = some st' → Carries st st' := by
+  intro fuel
+  induction fuel with
+  | zero => intro n st st' h; simp [resolve, Res.st?] at h
+  | succ fuel ih =>
+    intro n st st' h
+    obtain ⟨id, doc, kind, ref, empty, kids⟩ := n
+    have kidsC : ∀ (ks : List Node) (s0 s1 : St), (stepKids (resolve cfg w fuel) ks s0).st? = some s1 → Carries s0 s1 :=
+      fun ks s0 s1 hk => stepKids_st _ Carries (fun _ x => x) (fun _ _ _ f g x => g (f x)) ks s0 s1 (fun k _ s s' hk => ih k s s' hk) hk
+    simp only [resolve] at h
+    split at h
+    · simp [Res.st?] at h; subst h; exact fun x => x
+    · cases ref with
+      | none => simp only at h; exact kidsC kids st st' h
+      | some t0 =>
+        simp only at h
+        generalize keyOf cfg kind t0 = t at h
+        split at h
+        · simp [Res.st?] at h; subst h; exact fun x => x
+        · split at h
+          · simp [Res.st?] at h; subst h; exact fun x => x
+          · have c1 : Carries st { st with inprog := st.inprog ++ [t] } := fun x => x
+            split at h
+            · simp [Res.st?] at h
+            · simp [Res.st?] at h
+            · simp [Res.st?] at h
+            · rename_i n' _
+              split at h
+              · obtain ⟨s2, hr, hk⟩ := finish_vp _ _ _ _ _ _ _ h
+                exact fun x => hk (ih _ _ s2 hr (c1 x))
+              · obtain ⟨s2, hr, hk⟩ := finishSingle_vp _ _ _ _ _ _ h
+                exact fun x => hk (kidsC _ _ s2 hr (c1 x))
+            · rename_i n' _
+              have c2 : Carries st { st with inprog := st.inprog ++ [t], pathed := st.pathed ++ [n'.id] } := by
+                intro x i hi; simp only [List.mem_append]; exact Or.inl (x i hi)
+              split at h
+              · obtain ⟨s2, hr, hk⟩ := finishSingle_vp _ _ _ _ _ _ h
+                simp [Res.st?] at hr; subst hr
+                exact fun x => hk (c2 x)
+              · obtain ⟨s2, hr, hk⟩ := finish_vp _ _ _ _ _ _ _ h
+                exact fun x => hk (ih _ _ s2 hr (c2 x))
+            · rename_i n' _
+              obtain ⟨s2, hr, hk⟩ := finish_vp _ _ _ _ _ _ _ h
+              exact fun x => hk (ih _ _ s2 hr (c1 x))
+
 end KinModel.LoadSafety
